@@ -28,6 +28,11 @@ def run(ctx):
     B.b5_bookkeeping(ctx)
     B.b6_base_cases(ctx)
     B.b7_equivalence_steps(ctx)
+    B.b7b_min_object_of_the_rule_class(ctx)
+    # the map calls indexed_forward_map / indexed_backward_map: for the derived rule forms these go through the forms' own maps
+    from ..engines import dispatch as DP
+    DP.d4_paired_methods_follow_overrides(ctx, "AbstractRule", (("indexed_forward_map", "forward_map"), ("indexed_backward_map", "backward_map")))
+    ctx.floor("D4", 4)
     B.b13_leaf_on_codomain_side(ctx)
     ctx.floor("B13", 1)
     B.b9_state_keyed_by_pairs(ctx)
